@@ -15,8 +15,8 @@ From T4V Require Import Base.Scalar C02.Vec C02.Spec.
 Import ListNotations.
 
 (* Python exception classes of this path. EUnmodelled marks the two places where
-   the model deliberately stops (see notes/C02.md): a sheet selector that is not
-   -1, 0 or +1 (int() of a float) and a torus whose axis is not a coordinate
+   the model deliberately stops (see notes/C02.md): a sheet selector of magnitude
+   >= 2 (int() of a float) and a torus whose axis is not a coordinate
    axis (only reachable through a TR card: property C04). *)
 Inductive err := EIndex | EValue | EType | EZeroDiv | EKey | ENotImpl | EConv | EUnmodelled.
 Inductive res (A : Type) := Ok (a : A) | Err (e : err).
@@ -367,9 +367,13 @@ Definition cone_aux_plane (p u : vec) (side : Z) : res (t4surf * Z) :=
     Ok ((PLANEY, [(- pos) / u_y]), if zero <? u_y then side else Z.opp side)
   else Ok ((PLANE, [u_x; u_y; u_z; pos]), side).
 
-(* -int(nappe) for the three values a sheet selector may take *)
+(* -int(nappe): int() truncates towards zero; modelled for |nappe| < 2
+   (a larger selector gives |side| >= 2, outside the model) *)
 Definition minus_int (n : T) : res Z :=
-  if n == one then Ok (-1)%Z else if n == - one then Ok 1%Z else Err EUnmodelled.
+  if (one <=? n) && (n <? sZ S 2) then Ok (-1)%Z
+  else if (sZ S (-2) <? n) && (n <=? - one) then Ok 1%Z
+  else if (- one <? n) && (n <? one) then Ok 0%Z
+  else Err EUnmodelled.
 
 Definition convert_cone (c : cad) : res coll :=
   do f <- frame_of c;
